@@ -48,7 +48,7 @@ ASSUMPTIONS = [
 ]
 
 DEVIATIONS = ["none", "ui-header", "signer-header", "one-short", "one-long", "other-hash",
-              "other-order", "ui-other-btc-key", "none", "none"]
+              "other-order", "ui-other-btc-key", "none", "none", "signer-other-ud"]
 KEYS_ALT = ["none", "none", "none", "replace-one", "rename-path", "rename-keeping-order",
             "drop-btc", "empty", "not-object", "invalid-key", "compressed", "extra-key",
             "other-wallet-paths", "other-wallet-paths", "extra-key-respelled-path"]
@@ -81,6 +81,10 @@ def run_one(ch, cfg):
         byz["keys_hash"] = ch.bytes(32, "other-hash")
     elif deviation == "other-order":
         byz["keys_order"] = list(reversed(ORDERED_PATHS))
+    elif deviation == "signer-other-ud":
+        # the Signer's message carries another user-defined value than the UI's (attested at another
+        # time): nothing to refuse, and what is printed for each message is what that message holds
+        byz["signer_ud"] = ch.bytes(32, "signer-ud")
     elif deviation == "ui-other-btc-key":
         byz["ui_btc_key"] = Key(scalar(b"otherbtc" + ch.bytes(4, "btc"))).pub33
     wallet_paths = None
